@@ -191,6 +191,22 @@ fn analyse<C: Checker<G>>(g: &G, c: C, visited: Arc<Mutex<Vec<Vec<(usize, Option
             _ => if forest && d.is_none() && g.has_unsatisfying_maximal_path(tbl) { fail(format!("C11 missed eventually-counterexample for {} on a forest {}", NAMES[i], tag)); },
         } }
     }
+    if !sym {
+        // assert_properties succeeds exactly when no always/eventually property has a counterexample and every sometimes property an example
+        let mut expected = true;
+        for (i, (kind, tbl)) in g.props.iter().enumerate() {
+            match kind {
+                0 => if reach.iter().any(|s| !tbl[*s]) { expected = false; },
+                2 => if !reach.iter().any(|s| tbl[*s]) { expected = false; },
+                _ => if disc.contains_key(NAMES[i]) { expected = false; },
+            }
+        }
+        let hook = std::panic::take_hook();
+        std::panic::set_hook(Box::new(|_| {}));
+        let got = std::panic::catch_unwind(std::panic::AssertUnwindSafe(|| c.assert_properties())).is_ok();
+        std::panic::set_hook(hook);
+        if got != expected { fail(format!("C02 assert_properties {} although it should {} {}", if got { "succeeded" } else { "panicked" }, if expected { "succeed" } else { "panic" }, tag)); }
+    }
     let vis = visited.lock().unwrap().clone();
     if g.edges.len() <= 100 { for p in &vis { valid_path(p, "C01 visitor path"); } }
     if keep_going {
